@@ -635,10 +635,40 @@ fn main() {
             }
             let rt = tokio::runtime::Builder::new_multi_thread().worker_threads(2).enable_all().build().unwrap();
             let (mut on_dropper, mut never, mut first) = (0usize, 0usize, None);
+            // watchdog (a plain thread: a blocked async thread cannot be trusted to run timers): no
+            // step of a trial may hold the awaiting thread; a trial that makes no progress for 10 s
+            // ends the scenario with ok=0 instead of waiting for the check's time limit
+            let progress = Arc::new(std::sync::atomic::AtomicUsize::new(0));
+            {
+                let (progress, path) = (progress.clone(), path.clone());
+                std::thread::spawn(move || {
+                    let mut last = (usize::MAX, Instant::now());
+                    loop {
+                        std::thread::sleep(Duration::from_millis(250));
+                        let now = progress.load(std::sync::atomic::Ordering::SeqCst);
+                        if now != last.0 {
+                            last = (now, Instant::now());
+                        } else if last.1.elapsed() > Duration::from_secs(10) {
+                            let _ = std::fs::write(
+                                &path,
+                                format!("droprace trials={} the awaiting thread was held for 10s inside trial {} (creating, polling, cancelling or dropping blocked it) ok=0\n", now, now),
+                            );
+                            std::process::exit(0);
+                        }
+                    }
+                });
+            }
+            let mut done = 0usize;
             rt.block_on(async {
                 use std::sync::atomic::{AtomicBool, Ordering::SeqCst};
                 let me = std::thread::current().id();
                 for t in 0..trials {
+                    progress.store(t, SeqCst);
+                    if on_dropper + never >= 3 {
+                        // settled: every further failing trial may cost its 5 s of patience again
+                        break;
+                    }
+                    done = t + 1;
                     let slot: Arc<Mutex<Option<std::thread::ThreadId>>> = Arc::default();
                     let s2 = slot.clone();
                     let w = match SyncWrapper::new(Runtime::Tokio1, move || Ok::<_, ()>(Rec(s2))).await {
@@ -695,7 +725,7 @@ fn main() {
                 path,
                 format!(
                     "droprace trials={} destructor_on_dropping_thread={} never_destroyed={} first={} ok={}\n",
-                    trials,
+                    done,
                     on_dropper,
                     never,
                     first.map(|t| t.to_string()).unwrap_or("-".into()),
